@@ -105,38 +105,45 @@ top:
 			qual = string(sym)
 		}
 	}
-	if m := aux.methods[string(key)]; m != nil {
+	aux.moo.Lock()
+	m := aux.methods[string(key)]
+	var comb slip.Combination
+	if m != nil {
+		comb = *m.Combinations[0]
+	}
+	aux.moo.Unlock()
+	if m != nil {
 		switch qual {
 		case ":primary":
-			if m.Combinations[0].Primary != nil {
+			if comb.Primary != nil {
 				meth = &slip.Method{
 					Name:         m.Name,
 					Doc:          m.Doc,
-					Combinations: []*slip.Combination{{Primary: m.Combinations[0].Primary}},
+					Combinations: []*slip.Combination{{Primary: comb.Primary}},
 				}
 			}
 		case ":before":
-			if m.Combinations[0].Before != nil {
+			if comb.Before != nil {
 				meth = &slip.Method{
 					Name:         m.Name,
 					Doc:          m.Doc,
-					Combinations: []*slip.Combination{{Before: m.Combinations[0].Before}},
+					Combinations: []*slip.Combination{{Before: comb.Before}},
 				}
 			}
 		case ":after":
-			if m.Combinations[0].After != nil {
+			if comb.After != nil {
 				meth = &slip.Method{
 					Name:         m.Name,
 					Doc:          m.Doc,
-					Combinations: []*slip.Combination{{After: m.Combinations[0].After}},
+					Combinations: []*slip.Combination{{After: comb.After}},
 				}
 			}
 		case ":around":
-			if m.Combinations[0].Wrap != nil {
+			if comb.Wrap != nil {
 				meth = &slip.Method{
 					Name:         m.Name,
 					Doc:          m.Doc,
-					Combinations: []*slip.Combination{{Wrap: m.Combinations[0].Wrap}},
+					Combinations: []*slip.Combination{{Wrap: comb.Wrap}},
 				}
 			}
 		default:
